@@ -18,6 +18,7 @@
  */
 #include <complex.h>
 #include <errno.h>
+#include <fenv.h>
 #include <math.h>
 #include <stdio.h>
 #include <stdlib.h>
@@ -30,7 +31,7 @@
 #define NMAX 6
 
 typedef struct kase {
-    char kind[12], from[8], via[8], to[8], z0[8], net[16];
+    char kind[12], from[8], via[8], to[8], z0[8], net[16], mag[8];
     int n, alias;
 } kase_t;
 
@@ -61,9 +62,9 @@ static int load_cases(const char *path)
 	    return -1;
 	}
 	k = &cases[ncases];
-	if (sscanf(line, "case\t%11s\t%7s\t%7s\t%7s\t%d\t%d\t%7s\t%15s",
+	if (sscanf(line, "case\t%11s\t%7s\t%7s\t%7s\t%d\t%d\t%7s\t%15s\t%7s",
 		    k->kind, k->from, k->via, k->to, &k->n, &k->alias, k->z0,
-		    k->net) != 8) {
+		    k->net, k->mag) != 9) {
 	    fprintf(stderr, "bad case line: %s", line);
 	    return -1;
 	}
@@ -75,8 +76,8 @@ static int load_cases(const char *path)
 
 static void case_key(const kase_t *k, char *buf, size_t len)
 {
-    snprintf(buf, len, "%s:%s:%s:%s:%d:%d:%s:%s", k->kind, k->from, k->via,
-	    k->to, k->n, k->alias, k->z0, k->net);
+    snprintf(buf, len, "%s:%s:%s:%s:%d:%d:%s:%s:%s", k->kind, k->from, k->via,
+	    k->to, k->n, k->alias, k->z0, k->net, k->mag);
 }
 
 static uint64_t hash_str(const char *s)
@@ -158,8 +159,10 @@ static const cr_entry_t *find_fn(const char *from, const char *to, int nport)
     return e;
 }
 
-/* out = fn(in); aliased: the same buffer is input and output */
-static void apply(const cr_entry_t *e, const double complex *in,
+static int impure_calls;	/* calls whose result depended on more than
+				   their arguments, this draw */
+
+static void apply_once(const cr_entry_t *e, const double complex *in,
 	double complex *out, const double complex *z0, int n, int aliased)
 {
     if (aliased) {
@@ -172,6 +175,35 @@ static void apply(const cr_entry_t *e, const double complex *in,
     } else {
 	LIBV(cr_call(e, in, out, z0, n));
     }
+}
+
+/*
+ * out = fn(in); aliased: the same buffer is input and output.
+ * "Same input, same output": the call is made with the floating-point
+ * exception flags cleared, again with them raised, and again after a call
+ * of the same function on a singular (all-zero) input; the three results
+ * must be bit-identical (no dependence on sticky flags or hidden state).
+ */
+static void apply(const cr_entry_t *e, const double complex *in,
+	double complex *out, const double complex *z0, int n, int aliased)
+{
+    double complex o2[NMAX * NMAX], o3[NMAX * NMAX], zero[NMAX * NMAX],
+		   junk[NMAX * NMAX];
+    size_t outlen = (size_t)((e->kind == CR_FI2 || e->kind == CR_FIN) ?
+	    n : n * n) * sizeof(double complex);
+
+    feclearexcept(FE_ALL_EXCEPT);
+    apply_once(e, in, out, z0, n, aliased);
+    feclearexcept(FE_ALL_EXCEPT);
+    feraiseexcept(FE_DIVBYZERO | FE_INVALID | FE_OVERFLOW | FE_INEXACT);
+    apply_once(e, in, o2, z0, n, aliased);
+    feclearexcept(FE_ALL_EXCEPT);
+    memset(zero, 0, sizeof(zero));
+    apply_once(e, zero, junk, z0, n, 0);
+    apply_once(e, in, o3, z0, n, aliased);
+    feclearexcept(FE_ALL_EXCEPT);
+    if (memcmp(out, o2, outlen) != 0 || memcmp(out, o3, outlen) != 0)
+	++impure_calls;
 }
 
 static double max_rel_diff(int len, const double complex *x,
@@ -218,6 +250,9 @@ static int check_matrix(const rc_rel_t *rin, const double complex *min,
 	exit(3);
     }
     rc_check(rin, min, rout, mout, z0, drive, COND_MAX, &res);
+    if (getenv("VT_RELDEBUG") != NULL)
+	fprintf(stderr, "check %s->%s decided=%d cond=%g resid=%g\n",
+		rin->type, type, res.decided, res.cond, res.resid);
     if (!res.decided)
 	return 0;
     note(v, res.resid, TOL_REL * fmax(1.0, res.cond), "rel");
@@ -254,6 +289,7 @@ static void run_draw(const kase_t *k, vt_rng_t *r, verdict_t *v)
     v->failed = 0;
     v->worst = 0.0;
     v->what = "-";
+    impure_calls = 0;
     if (rs == NULL || rin == NULL) {
 	fprintf(stderr, "no relation for %s n=%d\n", k->from, n);
 	exit(3);
@@ -284,6 +320,52 @@ static void run_draw(const kase_t *k, vt_rng_t *r, verdict_t *v)
 	}
 	for (int i = 0; i < n * n; ++i)
 	    s[i] = cgauss(r, 0.45);
+	/* magnitude class: size of the reference impedances ... */
+	if (strcmp(k->mag, "z0lo") == 0 || strcmp(k->mag, "z0hi") == 0) {
+	    double f = (k->mag[2] == 'l' ? 1.0e-3 : 1.0e5) / 50.0 *
+		(0.5 + 1.5 * vt_unit(r));
+
+	    for (int p = 0; p < n; ++p)
+		z0[p] *= f;
+	} else if (strcmp(k->mag, "z0mix") == 0) {
+	    for (int p = 0; p < n; ++p) {
+		double m = pow(10.0, -3.0 + 8.0 * vt_unit(r));
+		double ph = (100.0 * vt_unit(r) - 50.0) * 0.017453292519943295;
+
+		z0[p] = m * cexp(I * ph);
+	    }
+	}
+	/* ... or impedance level of the network relative to them: the random
+	 * n-port is matched to L z0 and then expressed, through its Z (or Y)
+	 * matrix, in the input type (voltage/current family only) */
+	if (k->mag[0] == 'l' || k->mag[0] == 'h') {
+	    double L = (strcmp(k->mag, "lo6") == 0 ? 1.0e-6 :
+		    strcmp(k->mag, "lo3") == 0 ? 1.0e-3 :
+		    strcmp(k->mag, "hi3") == 0 ? 1.0e3 : 1.0e6) *
+		(0.5 + 1.5 * vt_unit(r));
+	    double complex zaux[NMAX], mid[NMAX * NMAX];
+	    const char *midtype = vt_below(r, 2) ? "Z" : "Y";
+	    const rc_rel_t *rmid = rc_relation(midtype, n);
+
+	    for (int p = 0; p < n; ++p)
+		zaux[p] = L * z0[p];
+	    if (getenv("VT_RELDEBUG") != NULL)
+		fprintf(stderr, "build mid %s cond=%g\n", midtype,
+			rc_reference(rs, s, rmid, mid, zaux, drive));
+	    if (!(rc_reference(rs, s, rmid, mid, zaux, drive) <= COND_IN))
+		continue;
+	    if (getenv("VT_RELDEBUG") != NULL && strcmp(k->from, midtype) != 0)
+		fprintf(stderr, "build %s from %s cond=%g\n", k->from, midtype,
+			rc_reference(rmid, mid, rin, min, z0, drive));
+	    if (strcmp(k->from, midtype) == 0) {
+		memcpy(min, mid, sizeof(mid));
+		ok = 1;
+	    } else if (rc_reference(rmid, mid, rin, min, z0, drive) <=
+		    COND_IN) {
+		ok = 1;
+	    }
+	    continue;
+	}
 	if (strcmp(k->from, "S") == 0) {
 	    memcpy(min, s, sizeof(s));
 	    ok = 1;
@@ -400,6 +482,7 @@ static void run_case(const kase_t *k, uint64_t seed, int draws)
 {
     char key[128];
     int decided = 0, failed = 0, first_bad = -1;
+    int impure = 0, first_impure = -1;
     double worst = 0.0;
     const char *what = "-";
 
@@ -411,6 +494,8 @@ static void run_case(const kase_t *k, uint64_t seed, int draws)
 	vt_seed(&r, seed * 0x100000001B3ull ^ hash_str(key) ^
 		((uint64_t)d << 40));
 	run_draw(k, &r, &v);
+	if (impure_calls > 0 && impure++ == 0)
+	    first_impure = d;
 	if (!v.decided)
 	    continue;
 	++decided;
@@ -425,11 +510,13 @@ static void run_case(const kase_t *k, uint64_t seed, int draws)
     }
     vt_put("{\"e\":\"Case\",\"case\":\"%llu:%d:%s\",\"kind\":\"%s\","
 	    "\"from\":\"%s\",\"via\":\"%s\",\"to\":\"%s\",\"n\":%d,"
-	    "\"alias\":%d,\"z0\":\"%s\",\"net\":\"%s\",\"draws\":%d,\"decided\":%d,"
+	    "\"alias\":%d,\"z0\":\"%s\",\"net\":\"%s\",\"mag\":\"%s\","
+	    "\"draws\":%d,\"decided\":%d,\"pure\":%d,\"impure\":%d,"
+	    "\"firstImpure\":%d,"
 	    "\"failed\":%d,\"firstBad\":%d,\"what\":\"%s\",\"lg\":%d}",
 	    (unsigned long long)seed, draws, key, k->kind, k->from, k->via,
-	    k->to, k->n, k->alias, k->z0, k->net, draws, decided, failed,
-	    first_bad,
+	    k->to, k->n, k->alias, k->z0, k->net, k->mag, draws, decided,
+	    impure == 0, impure, first_impure, failed, first_bad,
 	    what, worst > 0.0 && isfinite(worst) ?
 		(int)ceil(log10(worst)) : (worst == 0.0 ? -99 : 99));
     vt_end_line();
